@@ -9,10 +9,15 @@ clean=$(mktemp -d /tmp/confirm-clean-XXXXXX)
 git -C /repo archive HEAD | tar -x -C "$clean"
 git -C "$wt" diff -- stepup > "$wt.patch.confirm"
 [ -s "$wt.patch.confirm" ] || { echo "no change in $wt"; exit 2; }
-(cd "$wt" && PATH=/venv/bin:$PATH timeout 600 sh ./demo.sh "$wt" > "$wt.demo_changed.log" 2>&1); rc_changed=$?
-(cd "$clean" && PATH=/venv/bin:$PATH timeout 600 sh "$wt/demo.sh" "$clean" > "$wt.demo_clean.log" 2>&1); rc_clean=$?
+(cd "$wt" && PATH=/venv/bin:$PATH timeout 600 bash ./demo.sh "$wt" > "$wt.demo_changed.log" 2>&1); rc_changed=$?
+(cd "$clean" && PATH=/venv/bin:$PATH timeout 600 bash "$wt/demo.sh" "$clean" > "$wt.demo_clean.log" 2>&1); rc_clean=$?
 (cd "$wt" && PYTHONPATH="$wt" timeout 1500 /venv/bin/python -m pytest tests -q -p no:cacheprovider --timeout=900 -n 8 \
    --deselect tests/test_examples.py --deselect tests/test_interrupt.py > "$wt.tests.log" 2>&1); rc_tests=$?
+if [ $rc_tests -ne 0 ]; then
+  # wall-clock assertions (tests/test_pending.py::test_scale_smoke) fail on a loaded machine: run what failed once more, alone
+  failed=$(grep "^FAILED " "$wt.tests.log" | awk '{print $2}')
+  [ -n "$failed" ] && (cd "$wt" && PYTHONPATH="$wt" timeout 900 /venv/bin/python -m pytest $failed -q -p no:cacheprovider --timeout=900 >> "$wt.tests.log" 2>&1) && rc_tests=0
+fi
 echo "demo with change rc=$rc_changed (want non-zero); demo on HEAD rc=$rc_clean (want 0); tests rc=$rc_tests: $(tail -1 "$wt.tests.log")"
 rm -rf "$clean"
 if [ $rc_changed -ne 0 ] && [ $rc_clean -eq 0 ] && [ $rc_tests -eq 0 ]; then
